@@ -103,7 +103,11 @@ def expand(job):
             x = rnd.random()
             if x < 0.08:
                 off = rnd.choice([0, 60, -300, 330, -210, 765, -30, 30, 840, -720, rnd.randint(-1439, 1439)])
-                sysz = {"tz": -off * 60, "alt": -(off + 60) * 60, "daylight": 0, "isdst": 0}
+                # the offset in force: the daylight-saving one only when the zone has DST rules AND they apply now
+                daylight, isdst = rnd.choice([(0, 0), (1, 0), (1, 1), (0, 1), (1, 0)])
+                sysz = {"tz": -off * 60, "alt": -(off + 60) * 60, "daylight": daylight, "isdst": isdst}
+                if daylight and isdst == 1:
+                    off = off + 60
                 lz = (off // 60, off % 60) if off >= 0 else (-((-off) // 60), -((-off) % 60))
                 yield {"mode": sp, "p": p, "zh": lz[0], "zm": lz[1], "via": "to_local", "sys": sysz}
             elif x < 0.15:
